@@ -325,14 +325,17 @@ func geomFrom(c map[string]cval) pageGeom {
 }
 
 // expectedGeoms evaluates the cascade under every hypothesis left open by the specifications
-// (weight of :nth(); page name of a blank page: none, or one of the candidate names) and returns
-// the list of distinct outcomes.  A single outcome is asserted; several outcomes are compared
-// field by field and only the fields on which all agree are asserted.
-func expectedGeoms(rules []Rule, f pageFacts, blankNames []string) []pageGeom {
+// (weight of :nth()) and returns the list of distinct outcomes.  A single outcome is asserted;
+// several outcomes are compared field by field and only the fields on which all agree are asserted.
+// A blank page has no page name (css-page-3: a named page is a page "on which an element must be
+// displayed", its name comes from the `page` value of the content placed on it; a blank page, made
+// only to reach the requested side, displays none): it is matched by the unnamed rules and by
+// :blank / :left / :right / :first / :nth(), never by `@page <name>` rules (f.Name is "" for it).
+func expectedGeoms(rules []Rule, f pageFacts) []pageGeom {
 	var out []pageGeom
 	names := []string{f.Name}
 	if f.Blank {
-		names = append([]string{""}, blankNames...)
+		names = []string{""}
 	}
 	for _, nm := range names {
 		ff := f
